@@ -115,7 +115,14 @@ def sliceFrom (line : Line) (a : Nat) : Except Err Line :=
 
 /-! ## `extract_code_block_start` -/
 
-def backticks3 : Line := ['`', '`', '`']
+/-- `str::len()`: length in UTF-8 bytes -/
+def byteLen : Line → Nat
+  | [] => 0
+  | c :: r => c.utf8Size + byteLen r
+
+/-- `line.len() >= 3 && line.bytes().all(|byte| byte == b'`')` (no byte of a multi-byte character
+is `0x60`, so "all bytes" is "all characters") -/
+def isBareFence (line : Line) : Bool := decide (3 ≤ byteLen line) && line.all (· = '`')
 
 /-- the `for (index, ch) in line.char_indices()` loop and the final `language_start.map(…)`;
 `index` is the byte offset of the head of the remaining characters -/
@@ -124,13 +131,13 @@ def scanFence (line : Line) : List Char → Nat → Option Nat → Except Err (O
   | [], _, some ls => do
     let bt ← slice line 0 ls
     let lang ← sliceFrom line ls
-    pure (some (bt, lang, []))
+    pure (some (bt, trim lang, []))
   | ch :: rest, index, some ls =>
     if ch = '{' then do
       let bt ← slice line 0 ls
       let lang ← slice line ls index
       let cfg ← sliceFrom line index
-      pure (some (bt, trimEnd lang, cfg))
+      pure (some (bt, trim lang, trimEnd cfg))
     else scanFence line rest (index + ch.utf8Size) (some ls)
   | ch :: rest, index, none =>
     if ch ≠ '`' then
@@ -141,7 +148,7 @@ def scanFence (line : Line) : List Char → Nat → Option Nat → Except Err (O
 
 /-- `extract_code_block_start(line)`: `(backticks, language, config)` -/
 def extractCodeBlockStart (line : Line) : Except Err (Option (Line × Line × Line)) :=
-  if line = backticks3 then .ok (some (line, [], []))
+  if isBareFence line then .ok (some (line, [], []))
   else scanFence line line 0 none
 
 /-! ## titles -/
